@@ -330,6 +330,10 @@ func tamper(kind string, id uint64, secret bls.SecretKey, vVec []bls.PublicKey) 
 		return secret, v
 	case "vvec-short":
 		return secret, vVec[:len(vVec)-1]
+	case "vvec-empty":
+		return secret, []bls.PublicKey{}
+	case "vvec-double":
+		return secret, append(append([]bls.PublicKey{}, vVec...), vVec...)
 	case "vvec-long-key":
 		var sk bls.SecretKey
 		sk.SetByCSPRNG()
